@@ -190,8 +190,19 @@ class OptComparationFunctions:
         """
         mgr = self.environment.formula_manager
         cast_bv = None
-        if goal.get_logic() is BV:
-            otype = self.environment.stc.get_type(goal.term())
+        # The comparison operators depend only on the type of the objective term
+        # (the logic detected for the term also reflects the theories of its
+        # sub-terms, e.g. the Boolean/BV atoms of a MaxSMT goal)
+        otype = self.environment.stc.get_type(goal.term())
+        if otype.is_int_type():
+            table_key = LIA
+        elif otype.is_real_type():
+            table_key = LRA
+        elif otype.is_bv_type():
+            table_key = BV
+        else:
+            raise PysmtValueError("Invalid optimization function type: %s" % otype)
+        if table_key is BV:
             assert isinstance(otype, _BVType), "Error, BV goal logic when goal term is not of BV Type"
             if goal.signed:
                 cast_bv = lambda x: mgr.SBV(x, otype.width)
@@ -231,7 +242,7 @@ class OptComparationFunctions:
             },
         }
         options[QF_LIRA] = options[LRA]
-        return options[goal.get_logic()][goal.opt()][goal.signed]
+        return options[table_key][goal.opt()][goal.signed]
 
 
 class OptSearchInterval(OptComparationFunctions):
